@@ -135,7 +135,24 @@ type tspec struct {
 
 var amounts = []uint64{1, 1, 1, 2, 3, 1 << 31, 1<<33 - 2, 1 << 62}
 
-func scenario() {
+// plan: systematic schedule = run the current thread; at reported step number
+// plan.at[i] switch to thread plan.to[i]; when the current thread is done,
+// continue with the lowest unfinished one.
+type plan struct {
+	at []int
+	to []int
+}
+
+type scenCfg struct {
+	kind    string
+	withPtr bool
+	specs   []tspec
+	pl      *plan
+}
+
+func scenario() { scenarioCfg(nil) }
+
+func scenarioCfg(cfg *scenCfg) int {
 	dir, err := os.MkdirTemp(root, "t")
 	if err != nil {
 		panic(err)
@@ -151,12 +168,23 @@ func scenario() {
 	w.c = w.f.NewCounter("c")
 
 	kind := Pick(rnd, []string{"plain", "open", "rot", "rot", "ext", "ext"})
-	out.Note("scenario-" + kind)
+	if cfg != nil {
+		kind = cfg.kind
+		out.Note("systematic-" + kind)
+	} else {
+		out.Note("scenario-" + kind)
+	}
 	// ---- unmanaged setup ----
 	preAdds := 0
 	if kind == "open" {
 		// counters incremented before the file is opened
 		preAdds = rnd.Intn(3)
+		if cfg != nil {
+			preAdds = 0
+			if cfg.withPtr {
+				preAdds = 1
+			}
+		}
 		for i := 0; i < preAdds; i++ {
 			w.c.Add(int64(1 + rnd.Intn(3)))
 		}
@@ -171,7 +199,7 @@ func scenario() {
 		// concurrent registration (the lock-free list insertion) is outside the
 		// model: the counter is registered before the threads start
 		w.f.Register(w.c)
-		if rnd.Intn(3) > 0 {
+		if (cfg == nil && rnd.Intn(3) > 0) || (cfg != nil && cfg.withPtr) {
 			w.c.Add(int64(1 + rnd.Intn(4))) // has a pointer
 			preAdds = 1
 		}
@@ -201,8 +229,11 @@ func scenario() {
 	case "ext":
 		specs = append(specs, tspec{"ext", 0})
 	}
+	if cfg != nil {
+		specs = cfg.specs
+	}
 	// shuffle thread order
-	for i := len(specs) - 1; i > 0; i-- {
+	for i := len(specs) - 1; cfg == nil && i > 0; i-- {
 		j := rnd.Intn(i + 1)
 		specs[i], specs[j] = specs[j], specs[i]
 	}
@@ -247,9 +278,25 @@ func scenario() {
 				cand = append(cand, i)
 			}
 		}
-		i := cand[rnd.Intn(len(cand))]
-		if last >= 0 && rnd.Chance(65) && (tids[last] < 0 || !s.Done(tids[last])) {
-			i = last
+		var i int
+		if cfg != nil {
+			i = cand[0]
+			if last >= 0 && (tids[last] < 0 || !s.Done(tids[last])) {
+				i = last
+			}
+			for k, at := range cfg.pl.at {
+				if at == nsteps {
+					to := cfg.pl.to[k]
+					if tids[to] < 0 || !s.Done(tids[to]) {
+						i = to
+					}
+				}
+			}
+		} else {
+			i = cand[rnd.Intn(len(cand))]
+			if last >= 0 && rnd.Chance(65) && (tids[last] < 0 || !s.Done(tids[last])) {
+				i = last
+			}
 		}
 		last = i
 		before := w.observe()
@@ -323,6 +370,41 @@ func scenario() {
 		fmt.Fprintln(os.Stderr, "----")
 	}
 	w.f.Close()
+	return nsteps
+}
+
+// systematic: every schedule with at most k forced context switches, for a
+// few fixed small scenarios.
+func systematic(k int) {
+	base := []scenCfg{
+		{kind: "rot", withPtr: true, specs: []tspec{{"add", 1}, {"add", 2}, {"rot", 0}}},
+		{kind: "ext", withPtr: true, specs: []tspec{{"add", 1}, {"add", 2}, {"ext", 0}}},
+		{kind: "open", withPtr: true, specs: []tspec{{"add", 1}, {"add", 2}, {"rot", 0}}},
+		{kind: "rot", withPtr: false, specs: []tspec{{"add", 1}, {"add", 2}, {"rot", 0}}},
+		{kind: "plain", withPtr: true, specs: []tspec{{"add", 1}, {"add", 2}, {"add", 3}}},
+	}
+	for _, b := range base {
+		c := b
+		c.pl = &plan{}
+		maxSteps := scenarioCfg(&c) // no forced switch
+		nth := len(b.specs)
+		var rec func(depth int, from int, pl plan)
+		rec = func(depth int, from int, pl plan) {
+			if depth == 0 {
+				return
+			}
+			for at := from; at <= maxSteps+4; at++ {
+				for to := 0; to < nth; to++ {
+					p2 := plan{append(append([]int{}, pl.at...), at), append(append([]int{}, pl.to...), to)}
+					c := b
+					c.pl = &p2
+					scenarioCfg(&c)
+					rec(depth-1, at+1, p2)
+				}
+			}
+		}
+		rec(k, 0, plan{})
+	}
 }
 
 func main() {
@@ -339,6 +421,11 @@ func main() {
 	counter.VerifConcInit()
 	for i := 0; i < n; i++ {
 		scenario()
+	}
+	if os.Getenv("VERIF_TIER") == "thorough" {
+		systematic(2)
+	} else {
+		systematic(1)
 	}
 	out.Close()
 }
